@@ -216,6 +216,9 @@ class XsdGen:
                 if self.hostile:
                     pool += ["", " " if b == "string" else "_", "-1", "1.5", "+", "%", "class", "None", "a b" if b == "string" else "ab", "A" * 60, "a", "A", "é", "1a", "_x", "x-", "x.y", "true"]
                 vals = rng.sample(pool, rng.randrange(2, min(6, len(pool))))
+                if self.hostile and b == "string" and rng.random() < 0.15:  # delimiters: characters that have no unicode name
+                    vals = list(dict.fromkeys(vals[:2] + rng.choice([[",", ";", "\t"], ["\n", "\t"], ["\r\n", ","]])))
+                    self.feat.add("enumeration-of-control-characters")
                 if self.hostile and rng.random() < 0.3:  # members that become the same constant name
                     vals = list(dict.fromkeys(vals[:2] + rng.choice([["km", "Km", "KM"], ["a b" if b == "string" else "a_b", "a-b", "a.b", "A_B"], ["x-", "x.", "X", "x"]])))
             elif b == "int":
@@ -231,6 +234,10 @@ class XsdGen:
             self.feat.add("facets")
             b = rng.choice(["string", "int", "decimal"])
             facets = {"string": {"maxLength": "40", "minLength": "0"}, "int": {"minInclusive": "-100000", "maxInclusive": "100000"}, "decimal": {"fractionDigits": "4", "totalDigits": "12"}}[b]
+            if self.hostile and b == "string" and rng.random() < 0.4:
+                # patterns that look like the generator's own placeholders, or carry quotes and backslashes (matching every value used here)
+                facets = {"pattern": rng.choice(["Type[A-Z]*.*", "ForwardRef(x)?.*", "Literal[a]*.*", '"?.*', "\\\\?.*", "(.|\\s)*"])}
+                self.feat.add("pattern-facet")
             t = SimpleT(self.gname("T"), b, facets=facets)
             schema.stypes.append(t)
             return t
@@ -409,6 +416,10 @@ class XsdGen:
         rng = self.rng
         salt = self.salt
         tns = rng.choice([f"urn:xsdgen:{salt}:main", f"http://xsdgen.test/{salt}/main", None])
+        if self.hostile and rng.random() < 0.12:
+            # namespace names are arbitrary strings: quotes, backslashes (they end up in string literals of the generated modules)
+            tns = rng.choice([f"urn:corp:C:\\schemas\\users:{salt}", f'urn:"quoted":{salt}', f"urn:it's:{salt}", f"urn:x\\u:{salt}"])
+            self.feat.add("namespace-with-quotes-or-backslashes")
         main = Schema(tns, efd=rng.random() < 0.6, afd=rng.random() < 0.15)
         ss = SchemaSet(main, salt=salt)
         self.feat = ss.features
@@ -652,14 +663,14 @@ class Renderer:
 
     def schema(self, s: Schema):
         pm = self.prefix_map(s)
-        decls = " ".join(f'xmlns:{p}="{u}"' for p, u in pm.items())
-        out = [f'<?xml version="1.0" encoding="UTF-8"?>', f'<xs:schema {decls}' + (f' targetNamespace="{s.tns}"' if s.tns else "") +
+        decls = " ".join(f'xmlns:{p}="{esc(u)}"' for p, u in pm.items())
+        out = [f'<?xml version="1.0" encoding="UTF-8"?>', f'<xs:schema {decls}' + (f' targetNamespace="{esc(s.tns)}"' if s.tns else "") +
                (' elementFormDefault="qualified"' if s.efd else "") + (' attributeFormDefault="qualified"' if s.afd else "") + ">"]
         for o in self.ss.all():
             if o is s:
                 continue
             if o.tns != s.tns:
-                out.append(f'  <xs:import namespace="{o.tns}" schemaLocation="{o.file}"/>')
+                out.append(f'  <xs:import namespace="{esc(o.tns)}" schemaLocation="{o.file}"/>')
             elif s is self.ss.main:
                 out.append(f'  <xs:include schemaLocation="{o.file}"/>')
         for e in s.elements:
@@ -687,7 +698,7 @@ class Renderer:
         for v in t.enum or []:
             body.append(f'{pad}    <xs:enumeration value="{esc(v)}"/>')
         for k, v in t.facets.items():
-            body.append(f'{pad}    <xs:{k} value="{v}"/>')
+            body.append(f'{pad}    <xs:{k} value="{esc(v)}"/>')
         xs_decl = ""
         return f'{pad}<xs:simpleType{name}>\n{pad}  <xs:restriction base="xs:{t.base}"{xs_decl}>\n' + "\n".join(body) + f"\n{pad}  </xs:restriction>\n{pad}</xs:simpleType>"
 
